@@ -222,6 +222,8 @@ pub fn build(quick: bool) -> PropRun {
     for id in ["C01", "C02", "C05", "C11", "C13", "C08", "C09", "C07", "C10", "C17"] { if let Some(p) = crate::props::build(id, if quick { "quick" } else { "thorough" }) { take(p, budget, &mut scs); } }
     // valid API calls at the limits of their arguments: packets of exactly max_packet_size through Client::send / RemoteClient::send
     { let sc = crate::props_ew::c04_api_scenario(4444); let inner = sc.run; scs.push(Scenario { name: format!("C03.from.{}", sc.name), d: sc.d, run: Box::new(move |ch: &mut Chooser| { let mut r = inner(ch); r.violations.clear(); r }) }); }
+    // valid configurations at the limits of their types: every EndpointConfig field and the server's connection limits at boundary values, up to 2 (3) at a time
+    scs.push(crate::props_ew::config_extremes_scenario("C03", 0, if quick { 2 } else { 3 }));
     // (c)
     let plans: Vec<(bool, usize)> = if quick { vec![(false, 4), (true, 2)] } else { vec![(false, 5), (true, 3)] };
     let mut units = crate::c14::units(&plans, true);
